@@ -877,9 +877,9 @@ fn main() {
         );
     }
 
-    if t {
-        stress::run(&ctx, &mut rep);
-    }
+    // threaded stress: full size in the thorough tier, a small share on every quick run
+    // (`--stress=1` forces it, used by the tsan flavour)
+    stress::run(&ctx, &mut rep);
 
     std::process::exit(rep.finish().min(0));
 }
